@@ -121,7 +121,7 @@ def run_history(args):
     dirty_prefixes = 0
     for k in range(1, len(hist) + 1):
         prefix = hist[:k]
-        attempt = R.choice([b'q', b'q', b'e f%d' % R.randint(1, nfiles), b'b 1', b'b 2'])
+        attempt = R.choice([b'q', b'q', b'e f%d' % R.randint(1, nfiles), b'b 1', b'b 2', b'wq elsewhere', b'x elsewhere', b'1,1wq elsewhere'])      # (written somewhere else is not saved)
         r, out, disk, dumps = probe(vi, files, prefix, nfiles, attempt)
         wit = {'index': idx, 'files': files, 'prefix': [c for c, _ in prefix], 'attempt': attempt}
         if r.timed_out or common.san_report(r) or seg(out, 0, 1) is None or seg(out, 2, 3) is None:
@@ -144,7 +144,7 @@ def run_history(args):
             alive = S(4) in out.split(S(3), 1)[1] if S(3) in out else False
             l2 = parse_blist(seg(out, 4, 5) or b'')
             cur2 = [p for _, a, p, _ in l2 if a == '%']
-            if attempt.startswith(b'q'):
+            if attempt.startswith(b'q') or b'elsewhere' in attempt:
                 if not alive:
                     bad.append(('quit-discards', 'after %s: :q exited although %s differ(s) from disk' % ([c.decode() for c, _ in prefix], sorted(differs)), wit))
                     return bad, checks, dirty_prefixes, None
@@ -343,9 +343,9 @@ def failed_write_scenario(args):
     err = R.choice(['ENOSPC', 'EIO', 'EDQUOT', 'EFBIG'])
     k = R.randint(1, 3)
     fault = R.choice(['write:%d:%s' % (k, err), 'write:%d:shorthalf,write:%d:%s' % (k, k + 1, err), 'write:%d:short1,write:%d:%s' % (k, k + 1, err),
-                      'write:%d:shortallbut1,write:%d:%s' % (k, k + 1, err), 'close:1:%s' % err, 'open:1:EACCES'])
+                      'write:%d:shortallbut1,write:%d:%s' % (k, k + 1, err), 'close:1:%s' % err, 'open:1:EACCES', 'write:99:EIO', 'write:99:EIO'])      # (the last: no fault at all)
     cmd = R.choice([b'w', b'w', b'w!', b'wq', b'x', b'w|q', b'xa'])
-    attempt = R.choice([b'q', b'q', b'e f2', b'b 1'])
+    attempt = R.choice([b'q', b'q', b'e f2', b'b 1', b'wq elsewhere', b'x elsewhere'])
     script = edit + cmd + b'\nec ' + S(0) + b'\nb\nec ' + S(1) + b'\n' + attempt + b'\nec ' + S(2) + b'\nb\nec ' + S(3) + b'\n'
     r, d, lg = c03.run_ex(vi, so, script + b'q!\n', {'f1': content, 'f2': b'two\n'}, fault)
     disk = common.readf(d, 'f1')
@@ -353,10 +353,9 @@ def failed_write_scenario(args):
     wit = {'index': idx, 'buffer': bname, 'command': cmd.decode(), 'fault': fault, 'attempt': attempt.decode()}
     if r.timed_out:
         return None, wit
-    if lg.count('INJECTED') < fault.count(',') + 1:
-        return 'not-fired', wit
     if disk == want:
         return 'saved', wit
+    # (whether or not the planned fault came to pass: the file does not hold the text, so nothing may claim it does)
     if S(0) not in r.out:
         return ('failed-save-exits', 'buffer %s, %s with fault %s: the file holds %d bytes, the text %d, and the editor exited' % (bname, cmd.decode(), fault, len(disk or b''), len(want)), ), wit
     l0 = parse_blist(seg(r.out, 0, 1) or b'')
